@@ -21,13 +21,19 @@ func TestVerif_C06(t *testing.T) {
 		k := c06GenKnobs(rng, i+r.Batch*5)
 		seed := rng.Int63()
 		obs := c06RunCase(t, k, seed)
-		r.Case(k.String()+"/"+verifrt.Hash64s(seed), obs.Raced || (k.Path == "supervisor-restart" && obs.Stopped))
+		r.Case(k.String()+"/"+verifrt.Hash64s(seed), obs.Raced || (k.Path == "supervisor-restart" && obs.Stopped && obs.SuspensionSeen))
 		r.Count("events_logged", int64(obs.Events))
 		r.Count("receives_observed", obs.Receives)
 		r.Count("poststops_observed", obs.PostStops)
 		r.Count("noise_delays_injected", obs.Delays)
 		if obs.Raced {
 			r.Count("cases_stop_raced_traffic:"+k.Path, 1)
+		}
+		if k.Path == "supervisor-restart" {
+			if obs.SuspensionSeen {
+				r.Count("supervisor_restarts_with_suspension_observed_while_senders_active", 1)
+			}
+			r.Count("sends_begun_after_suspension_seen_and_accepted", obs.AcceptedAfterSuspension)
 		}
 		if obs.Busy {
 			r.Count("cases_poststop_found_receive_in_progress", 1)
@@ -42,6 +48,9 @@ func TestVerif_C06(t *testing.T) {
 		seen := map[string]bool{}
 		for _, f := range obs.Findings {
 			sig := f.Kind + ":" + k.Path + ":" + f.Actor
+			if f.Sub != "" {
+				sig += ":" + f.Sub
+			}
 			if seen[sig] {
 				continue
 			}
